@@ -127,7 +127,7 @@ def collect(res, rng, nruns, max_cases, kind="sh", integ="exp"):
 AF_SETUPS = [("simple", [-2.0], (6.0, 14.0), 5.0), ("dual", [-3.0], (12.0, 30.0), 5.0), ("extended", [-3.0], (4.0, 12.0), 5.0), ("subotnik2d", [-3.0, 0.4], None, 4.0)]
 
 
-def collect_af(res, rng, nruns, max_cases):
+def collect_af(res, rng, nruns, max_cases, aug="exp"):
     import mudslide, copy, sys
     from mudslide.models import scattering_models as M
     S_ = sys.modules['mudslide.models.scattering_models']
@@ -140,7 +140,7 @@ def collect_af(res, rng, nruns, max_cases):
         nsteps = rng.randint(25, 60); pois = rng.random() < 0.3
         zl = [rng.choice([2.0, 2.0, rng.random() * 0.05, 10 ** rng.uniform(-6, -2), rng.random()]) for _ in range(nsteps + 5)]
         tr = mudslide.AugmentedFSSH(model, x0, p0, rng.randrange(n) if rng.random() < 0.4 else 0, dt=dt, max_steps=nsteps, zeta_list=list(zl),
-                                    hopping_probability="poisson" if pois else "tully", seed_sequence=rng.randrange(2 ** 31))
+                                    hopping_probability="poisson" if pois else "tully", seed_sequence=rng.randrange(2 ** 31), augmented_integration=aug)
         rec, steps = {}, []
         ap, pe, cs, gc = tr.advance_position, tr.propagate_electronics, tr.continue_simulating, tr.gamma_collapse
         def advance_position(le, te):
@@ -200,9 +200,10 @@ def collect_af(res, rng, nruns, max_cases):
                              tup(tup(fls(x), fls(v), cxss(rho), nat(a), fl(t)), fls(s_["lastv"]), lst([cxss(s_["dR"][xd]) for xd in range(nd)]), lst([cxss(s_["dP"][xd]) for xd in range(nd)])),
                              tup(tup(fls(x1), fls(v1), cxss(rho1), nat(a1), fl(t1)), lst([cxss(s_["dR1"][xd]) for xd in range(nd)]), lst([cxss(s_["dP1"][xd]) for xd in range(nd)]), bl(s_["coll"]))))
             meta.append(dict(model=mname, step=i, dt=dt, poisson=pois, zeta=s_["zeta"], hopped=bool(a != a1), collapsed=bool(s_["coll"])))
-            res.count("fullstep-afssh/" + ("hop" if a != a1 else "no-hop")); res.count("fullstep-afssh-model/" + mname)
-            if s_["coll"]: res.count("fullstep-afssh/collapse")
-            res.case(("fullstep-afssh", mname, it, i), True)
+            tagA = "fullstep-afssh" + ("" if aug == "exp" else "-rk4")
+            res.count(tagA + "/" + ("hop" if a != a1 else "no-hop")); res.count(tagA + "-model/" + mname)
+            if s_["coll"]: res.count(tagA + "/collapse")
+            res.case((tagA, mname, it, i), True)
             if len(cases) >= max_cases:
                 return cases, meta
     return cases, meta
